@@ -112,7 +112,7 @@ func (n *Node) Text() string {
 		}
 		return "false"
 	case "name":
-		return n.Op
+		return quoteName(n.Op)
 	case "not":
 		return "!(" + n.A[0].Text() + ")"
 	case "call":
@@ -130,6 +130,9 @@ func (n *Node) Text() string {
 	case "idx":
 		return n.A[0].Text() + "[" + n.A[1].Text() + "]"
 	case "bin":
+		if renderMinParens {
+			return n.textMin()
+		}
 		switch n.Op {
 		case "between":
 			return "(" + n.A[0].Text() + " between " + n.A[1].A[0].Text() + " and " + n.A[1].A[1].Text() + ")"
@@ -139,6 +142,40 @@ func (n *Node) Text() string {
 		return "(" + n.A[0].Text() + " " + n.Op + " " + n.A[1].Text() + ")"
 	}
 	panic("bad node kind " + n.K)
+}
+
+// renderMinParens switches Text() to the minimal parenthesisation the documented binding strengths allow
+// (OR/| < AND/& < comparisons, IN, BETWEEN < + - < * /, left-associative): the parser has to rebuild the tree itself.
+var renderMinParens bool
+
+var astPrec = map[string]int{"|": 1, "or": 1, "&": 2, "and": 2, "=": 3, "!=": 3, "^=": 3, "~=": 3, ">": 3, ">=": 3, "<": 3, "<=": 3, "in": 3, "between": 3, "+": 4, "-": 4, "*": 5, "/": 5}
+
+func (n *Node) textMin() string {
+	p := astPrec[n.Op]
+	side := func(c *Node, right bool) string {
+		t := c.Text()
+		if c.K == "bin" {
+			cp := astPrec[c.Op]
+			if (right && cp <= p) || (!right && cp < p) {
+				return "(" + t + ")"
+			}
+		}
+		return t
+	}
+	switch n.Op {
+	case "between":
+		return side(n.A[0], false) + " between " + side(n.A[1].A[0], true) + " and " + side(n.A[1].A[1], true)
+	case "in":
+		if n.A[1].K == "list" {
+			return side(n.A[0], false) + " in " + n.A[1].Text()
+		}
+		r := n.A[1].Text()
+		if n.A[1].K == "bin" {
+			return "(" + n.A[0].Text() + " in " + r + ")" // (x in <binary>) has no unambiguous minimal form: keep it as written
+		}
+		return side(n.A[0], false) + " in " + r
+	}
+	return side(n.A[0], false) + " " + n.Op + " " + side(n.A[1], true)
 }
 
 // Canon is the engine's canonical rendering (Expression.String()) of the
